@@ -119,6 +119,12 @@ def classify(kind, canonical, exp, ok, out, base):
 
 
 def run(ctx):
+    try:  # coqc child processes inherit the stack limit
+        import resource
+        soft, hard = resource.getrlimit(resource.RLIMIT_STACK)
+        resource.setrlimit(resource.RLIMIT_STACK, (hard, hard))
+    except Exception:  # noqa
+        pass
     quick = ctx.tier == "quick"
     ctx.nc_mismatch = []
     b = ctx.coq_build(["C05/Dec.v", "C05/DecProofs.v", "C05/PropsC05.v", "C05/Harness.v"])
